@@ -210,8 +210,13 @@ type fragSource struct {
 	zeroed bool
 	calls  int
 	failAt int
-	failN  int // bytes delivered together with the failure
+	failN  int  // bytes delivered together with the failure
+	wrap   bool // the failure wraps io.ErrUnexpectedEOF (a source that reports a broken connection that way)
 }
+
+// errInjectedWrapped is an I/O failure that also wraps io.ErrUnexpectedEOF: it must be passed
+// through like any other source failure, never be taken for the end of the input.
+var errInjectedWrapped = fmt.Errorf("%w (connection lost: %w)", errInjected, io.ErrUnexpectedEOF)
 
 func fragPatterns() [][2]int {
 	var ps [][2]int
@@ -240,6 +245,9 @@ func (s *fragSource) Read(p []byte) (int, error) {
 		}
 		n = copy(p[:n], s.data[s.pos:])
 		s.pos += n
+		if s.wrap {
+			return n, errInjectedWrapped
+		}
 		return n, errInjected
 	}
 	if len(p) == 0 {
